@@ -9,6 +9,7 @@ mod d_enc;
 mod d_io;
 mod d_lzma;
 mod d_lzma2;
+mod d_rcsmall;
 mod d_reader;
 mod d_reuse;
 mod d_stream;
@@ -189,6 +190,12 @@ fn main() {
         "symtrace" => {
             let mut rep = Report::new("symtrace");
             d_symtrace::run(&prop, seed, &a.str("files", "/repo/tests/files"), a.num("cap", 20000) as usize, &a.str("trace", "/tmp/symtrace.ndjson"), &mut rep);
+            finish(rep, &a);
+        }
+        "rcsmall" => {
+            let mut rep = Report::new("rcsmall");
+            let par = d_rcsmall::Par { w: a.num("W", 9) as u32, b: a.num("B", 3) as u32, p: a.num("P", 4) as u32, m: a.num("M", 2) as u32 };
+            d_rcsmall::run(&prop, seed, &a.str("export", ""), par, a.num("nctx", 2) as usize, &mut rep);
             finish(rep, &a);
         }
         "xzlib" => {
